@@ -9,6 +9,7 @@ package main
 
 import (
 	"encoding/json"
+	"flag"
 	"fmt"
 	"math/rand"
 	"os"
@@ -318,8 +319,85 @@ func genAncestor(r *rand.Rand, n *igntree.Node, keep int) *core.Entry {
 
 const header = "From Coq Require Import List Bool Arith String Ascii.\nImport ListNotations.\nFrom Mv Require Import Common.Bytes Model.Entry Model.IgnoreScan Model.IgnoreDocker Harness.IgnoreDockerH.\nOpen Scope string_scope.\nOpen Scope list_scope."
 
+var propFlag = flag.String("prop", "C15", "C15, or C03 for the scan premise of C03 (ignored content never becomes synchronizable content of a snapshot)")
+
+// mainC03 is the "-prop C03" mode: scans of real trees with docker.NewIgnorer,
+// judged by Harness/ScanIgnoredH.v (no Docker reference semantics involved).
+func mainC03(cfg *hx.Config) {
+	w := hx.NewWriter(cfg, igntree.C03Header, "c3case", "c03scan_failures", 150)
+	w.Rule = igntree.C03Rule
+	add := func(c Case, origin string) {
+		if w.Aborted || c.Tree == nil {
+			return
+		}
+		var coq string
+		var nt bool
+		var tags []string
+		if w.Guard(c, 5*time.Second, func() {
+			ig, err := dockerignore.NewIgnorer(c.Raws)
+			if err != nil {
+				panic(err)
+			}
+			coq, nt, tags = igntree.C03Case(c.Tree, ig)
+		}) {
+			w.Add(hx.Case{Coq: coq, Replay: c, Nontrivial: nt, Tags: append(tags, "syntax:docker"), Origin: origin})
+		}
+	}
+	if cfg.Replay != "" {
+		b, err := os.ReadFile(cfg.Replay)
+		if err != nil {
+			panic(err)
+		}
+		var wrapper struct {
+			Case Case `json:"case"`
+		}
+		if err := json.Unmarshal(b, &wrapper); err != nil {
+			panic(err)
+		}
+		add(wrapper.Case, "replay")
+		w.Close()
+		return
+	}
+	// regression inputs live with C15's corpus (the C03 corpus holds reconcile triples)
+	for _, raw := range hx.LoadCorpus(os.Getenv("VERIF_DIR") + "/corpus/C15") {
+		var c Case
+		if json.Unmarshal(raw, &c) == nil && c.K == "scan" {
+			if _, err := dockerignore.VerifNewMatcher(c.Raws); err == nil {
+				add(c, "corpus")
+			}
+		}
+	}
+	r := cfg.Rand
+	scale := 1
+	if cfg.Thorough() {
+		scale = 25
+	}
+	for t := 0; t < 50*scale; t++ {
+		tr := igntree.Random(r, 4, 4, names)
+		for j := 0; j < 8; j++ {
+			var raws []string
+			switch {
+			case j >= 7:
+				raws = genPrefixSibling(r, tr)
+			case j >= 3:
+				raws = genReinclude(r, tr)
+			}
+			if raws == nil {
+				raws = genPatterns(r, 5)
+			}
+			add(Case{K: "scan", Raws: raws, Tree: tr}, "random")
+		}
+	}
+	w.Close()
+	fmt.Printf("cases %d\n", w.Total())
+}
+
 func main() {
 	cfg := hx.Parse()
+	if *propFlag == "C03" {
+		mainC03(cfg)
+		return
+	}
 	w := hx.NewWriter(cfg, header, "dcase", "ignd_failures", 150)
 	w.Rule = "a case = one run of the real code: query = MatchesOrParentMatches and MatchesForMutagen of the vendored matcher on one path; scan = core.Scan with docker.NewIgnorer on a real temporary tree followed by ReifyPhantomDirectories; distinct = distinct Coq terms; non-trivial = query: Docker's answer differs from the exact-path status or traversal must continue; scan: the raw snapshot contains a phantom directory (the ignore mask was exercised)"
 	add := func(c Case, origin string) {
